@@ -34,7 +34,7 @@ EXPLANATION = ("k chunk identifiers are symbolic 64-bit terms (arbitrary distinc
                "minishard slot, delta-decoded index) and the solver proves payload equality and the structural rules "
                "for every placement on the path.")
 BOUNDS = {"quick": "grids up to 3x4x2 (incl. non powers of two and single-chunk axes); (minishard,shard,preshift) from {0,1,2}^3 "
-                   "(subset), (2,2,0) on 3x4x2, (0,0,64), (1,30,40), (0,70,0); raw and gzip index/data encodings; k<=2 symbolic "
+                   "(subset), (2,2,0) on 3x4x2, (0,0,64), (1,30,40), (0,70,0), (1,4,0), (0,8,1), (1,5,0); raw and gzip index/data encodings; k<=2 symbolic "
                    "chunks with payloads of 0..2 bytes; full grids in raster and reversed order; both buffering strategies",
           "thorough": "k=3 symbolic chunks, all 27 bit triples on two grids"}
 OUTSIDE = ["real zlib streams", "minishard_bits > 12 (the shard index alone would need gigabytes)", "grids beyond 3x4x2"]
@@ -63,7 +63,7 @@ def configs(tier, seed):
             out.append(_cfg("symbolic", g, t, enc, k=min(2, g[0] * g[1] * g[2]), lens=[(n % 3), 2 - (n % 2)], strategy=strat, cost=6))
             if g[0] * g[1] * g[2] <= 24 and (tier == "thorough" or n % 2 == 0):
                 out.append(_cfg("fullgrid", g, t, enc, order=("raster", "reversed")[n % 2], strategy=strat, cost=3))
-    for t in ((0, 0, 64), (1, 30, 40), (0, 70, 0), (3, 0, 0)):
+    for t in ((0, 0, 64), (1, 30, 40), (0, 70, 0), (3, 0, 0), (1, 4, 0), (0, 8, 1), (1, 5, 0)):
         out.append(_cfg("symbolic", (3, 4, 2), t, k=2, lens=[1, 2], strategy="in memory", cost=4))
         out.append(_cfg("fullgrid", (3, 4, 2), t, order="reversed", strategy="in memory", cost=3))
     out.append(_cfg("symbolic", (2, 2, 1), (1, 1, 0), k=1, lens=[2], strategy="on disk", cost=1))
